@@ -165,6 +165,11 @@ func S64(t *Term) *Term {
 	if t.sort.Bits() < 64 {
 		t = SignExt(64-t.sort.Bits(), t)
 	}
+	if t.op == "app" && (t.name == "sl_len" || t.name == "sl_cap" || t.name == "str_len") {
+		// lengths and capacities are non-negative (type invariant, asserted wherever a slice or
+		// string value enters): the signed and the unsigned reading coincide
+		return App("U64", SInt, t)
+	}
 	return App("S64", SInt, t)
 }
 
